@@ -65,6 +65,22 @@ Fixpoint run_ops (fuel : nat) (server : bool) (s : sm) (ops : list Z) : list Z :
                 [1%Z; Nz t; Nz id] ++ run_ops fuel server s' r
             | (None, _) => [1%Z; Nz t; (-1)%Z] ++ run_ops fuel server s r
             end
+      | 4%Z :: r =>
+          (* another application handle (own open token and waker) polls: whether a stream is opened
+             depends on the available capacity alone, never on the token *)
+          let '(_, r) := nx r in
+          let '(a, r) := nx r in
+          let t := zN a mod 2 in
+          if 64 <=? l_opened (sm_bidi s) + l_opened (sm_uni s) then []
+          else
+            let c := if t =? 0 then sm_bidi s else sm_uni s in
+            match l_open server t c with
+            | (Some id, c') =>
+                let s' := if t =? 0 then mk_sm c' (sm_uni s) (sm_flags s)
+                          else mk_sm (sm_bidi s) c' (sm_flags s ++ [false]) in
+                [4%Z; Nz t; Nz id] ++ run_ops fuel server s' r
+            | (None, _) => [4%Z; Nz t; (-1)%Z] ++ run_ops fuel server s r
+            end
       | 2%Z :: r =>
           let '(a, r) := nx r in let '(b, r) := nx r in
           let t := zN a mod 2 in
@@ -120,6 +136,23 @@ Fixpoint walk (ok : bool -> N -> mty -> N -> bool) (fuel : nat) (server : bool) 
           match out with
           | [] => true                  (* the drivers stop after 64 opened streams *)
           | 1%Z :: _ :: res :: o =>
+              if (res <? 0)%Z then walk ok fuel server yb yu r o
+              else
+                let id := zN res in
+                let y := if t =? 0 then yb else yu in
+                if ok server t y id then
+                  let y' := mk_mty (Some id) (y_lim y) in
+                  if t =? 0 then walk ok fuel server y' yu r o else walk ok fuel server yb y' r o
+                else false
+          | _ => false
+          end
+      | 4%Z :: r =>
+          let '(_, r) := nx r in
+          let '(a, r) := nx r in
+          let t := zN a mod 2 in
+          match out with
+          | [] => true
+          | 4%Z :: _ :: res :: o =>
               if (res <? 0)%Z then walk ok fuel server yb yu r o
               else
                 let id := zN res in
